@@ -273,6 +273,9 @@ func escapeComment(w writer, s string) error {
 		case '&':
 			escaped = "&amp;"
 
+		case '\r':
+			escaped = "&#13;"
+
 		case '>':
 			if j > 0 {
 				if prev := s[j-1]; (prev != '!') && (prev != '-') {
@@ -306,7 +309,7 @@ func escapeComment(w writer, s string) error {
 
 // escapeCommentString is to EscapeString as escapeComment is to escape.
 func escapeCommentString(s string) string {
-	if strings.IndexAny(s, "&>") == -1 {
+	if strings.IndexAny(s, "&>\r") == -1 {
 		return s
 	}
 	var buf bytes.Buffer
